@@ -628,6 +628,48 @@ def _eval_view(cases):
     return out
 
 
+NORMS = {'ascontiguousarray': lambda a: np.ascontiguousarray(a), 'require:CAW': lambda a: np.require(a, requirements='CAW'),
+         'require:CW': lambda a: np.require(a, requirements='CW'), 'array:C': lambda a: np.array(a, order='C'),
+         'array:K': lambda a: np.array(a), 'asanyarray': lambda a: np.asanyarray(a)}
+
+
+def _f_order(a):
+    st = [abs(s) for s, d in zip(a.strides, a.shape) if d > 1]
+    return any(x < y for x, y in zip(st, st[1:]))
+
+
+def _eval_norm(cases):
+    """the Lean model of the numpy normalisers (flags in -> flags out -> ISCARRAY?) against numpy itself"""
+    lines, arrs = [], []
+    for c in cases:
+        g = G(c['seed'], 5)
+        a = g.img(g.shape(c['nd'], 2), np.int32)
+        if c['layout'] == 'unaligned':
+            raw = np.zeros(a.size * 4 + 1, np.uint8)
+            v = raw[1:].view(np.int32).reshape(a.shape)
+            v[...] = a
+        else:
+            v = gen.relayout(a, c['layout'])
+        arrs.append(v)
+        fl = v.flags
+        lines.append(f"c08 kind=norm norm={c['norm']} c={int(fl.c_contiguous)} al={int(fl.aligned)} w={int(fl.writeable)} fo={int(_f_order(v))}")
+    drvs = core.drive(lines)
+    out = []
+    for c, v, drv, line in zip(cases, arrs, drvs, lines):
+        r = NORMS[c['norm']](v)
+        real = dict(c=int(r.flags.c_contiguous), al=int(r.flags.aligned), w=int(r.flags.writeable),
+                    accepts=int(r.flags.c_contiguous and r.flags.aligned and r.flags.writeable))
+        model = {k: int(drv[k]) for k in real}
+        f = []
+        if model != real:
+            f.append(dict(kind='model', key=f"norm:{c['norm']}", detail=dict(model=model, numpy=real, layout=c['layout'], shape=list(v.shape))))
+        if not np.array_equal(r, v):
+            f.append(dict(kind='model', key='norm:content-changed', detail=dict(case=c)))
+        out.append(dict(findings=f, nontrivial=c['layout'] != 'C', sig=line + str(c['nd']),
+                        tags=dict(stream='norm', norm=c['norm'], layout=c['layout'], accepts=real['accepts'])))
+    return out
+
+
 def _public_api():
     found = {}
     for m in PUBLIC_MODULES:
@@ -665,6 +707,9 @@ def evaluate(cases):
     for (i, _), r in zip(sweep, _eval_sweep([c for _, c in sweep]) if sweep else []):
         out[i] = r
     for (i, _), r in zip(views, _eval_view([c for _, c in views]) if views else []):
+        out[i] = r
+    norms = [(i, c) for i, c in enumerate(cases) if c.get('stream') == 'norm']
+    for (i, _), r in zip(norms, _eval_norm([c for _, c in norms]) if norms else []):
         out[i] = r
     for i, c in enumerate(cases):
         if c.get('stream') == 'cover':
@@ -713,6 +758,11 @@ def cases(rng, tier):
     nview = dict(quick=600, thorough=20000, search=3000)[tier]
     for _ in range(nview):
         out.append(_rand_view(rng))
+    for norm in sorted(NORMS):
+        for layout in gen.LAYOUTS + ['unaligned']:
+            for nd in (1, 2, 3):
+                for _ in range(dict(quick=1, thorough=5, search=2)[tier]):
+                    out.append(dict(stream='norm', norm=norm, layout=layout, nd=nd, seed=rng.randrange(1 << 30)))
     ninputs = dict(quick=1, thorough=40, search=4)[tier]
     for name in sorted(reg_):
         e = reg_[name]
